@@ -4,6 +4,7 @@ import (
 	"context"
 	"errors"
 	"io"
+	"log/slog"
 	"time"
 
 	"github.com/bits-and-blooms/bloom/v3"
@@ -85,7 +86,11 @@ var (
 	vpFileMarker []*bloom.BloomFilter
 )
 
+// The block is identified by its row data (RowDataOffset = 100 * its index in the caller's
+// slice), not by the cursor's own numbering: the survivors' indexes are used by the caller against
+// ITS slice, so a filter pass that renumbers its blocks must still hand on the right ones.
 func vpFiltersForOK(c *blockFilterCursor, i int) (*BloomFilters, time.Duration, bool, error) {
+	i = c.blocks[i].RowDataOffset / 100
 	vpFilterReads = append(vpFilterReads, i)
 	switch nondetChoice(3) {
 	case 1:
@@ -233,6 +238,8 @@ func vpQueryEngine(w *vpWorld, conc int) *BloomSearchEngine {
 func vpQuerySetup(w *vpWorld, nFiles, nBlocks int) {
 	vpQW = &vpQueryWorld{}
 	vpFileMarker, vpBlockMarker = nil, nil
+	// the format does not tie the order of the filter sections to the order of the row data
+	reversed := nBlocks > 1 && nondetBool()
 	for i := 0; i < nFiles; i++ {
 		fm := new(bloom.BloomFilter)
 		vpFileMarker = append(vpFileMarker, fm)
@@ -244,7 +251,11 @@ func vpQuerySetup(w *vpWorld, nFiles, nBlocks int) {
 			if nondetBool() {
 				part = "q"
 			}
-			md.DataBlocks = append(md.DataBlocks, DataBlockMetadata{RowDataOffset: 100 * j, RowDataSize: 100, BloomFilterOffset: 1000 + 10*j, BloomFilterSize: 10, PartitionID: part, Rows: 1})
+			fo := 1000 + 10*j
+			if reversed {
+				fo = 1000 + 10*(nBlocks-1-j)
+			}
+			md.DataBlocks = append(md.DataBlocks, DataBlockMetadata{RowDataOffset: 100 * j, RowDataSize: 100, BloomFilterOffset: fo, BloomFilterSize: 10, PartitionID: part, Rows: 1})
 			bm = append(bm, new(bloom.BloomFilter))
 			bv = append(bv, nondetBool())
 		}
@@ -260,7 +271,7 @@ func vpQuerySetup(w *vpWorld, nFiles, nBlocks int) {
 //vp:override (*bs.blockFilterCursor).filtersFor=vpQueryFiltersFor
 //vp:override (*bs.blockFilterCursor).release=vpCursorReleaseNop
 //vp:override (*bs.BloomSearchEngine).processDataBlock=vpQueryScanStub
-//vp:bounds the real Query with all its goroutines, MaxQueryConcurrency 1 or 2, 1..2 files x 1..2 blocks (quick tier: not 2x2), each block in partition p or q, query = Field condition with or without a partition prefilter, file-level and block-level verdicts arbitrary, each scan's read succeeding or failing; threads run to their next blocking point (no forced switches)
+//vp:bounds the real Query with all its goroutines, MaxQueryConcurrency 1 or 2, 1..2 files x 1..2 blocks (quick tier: not 2x2), each block in partition p or q, filter sections in row-data order or reversed, query = Field condition with or without a partition prefilter, file-level and block-level verdicts arbitrary, each scan's read succeeding or failing; threads run to their next blocking point (no forced switches)
 func H_C24_query_reads_only_what_survives() {
 	w := vpNewWorld()
 	w.openMaySucceed = true
@@ -336,3 +347,86 @@ func vpReadRowDataOK(file io.ReadSeeker, block *DataBlockMetadata) ([]byte, func
 }
 func vpMatchAll(m *compiledRowMatcher, rowBytes []byte, scratch *rowMatchScratch) bool { return true }
 func vpMaterializeOK(rowBytes []byte) (map[string]any, error)                           { return map[string]any{}, nil }
+
+// ---- (4) what "its filters rule the query out" means: the pruning evaluator is exact on the
+// filters' own answers. For every tree over Field / Token / Field:Token leaves, evaluateBloomFilters
+// equals the nested boolean combination of the three filters' TestString answers (an absent filter
+// cannot disqualify): a block is scanned only if that combination is true, so a leaf whose filter
+// answers "absent" is never silently treated as "maybe" (C24), and never the other way round (C01).
+
+type vpLeafFilters struct {
+	field, token, fieldToken *bloom.BloomFilter
+	n                        int
+}
+
+func vpAnyLeaf(c *vpLeafFilters) (BloomExpression, bool) {
+	name := vpLeafName(c.n)
+	c.n++
+	ans := nondetBool()
+	switch nondetChoice(3) {
+	case 0:
+		if c.field == nil {
+			return Field(name), true
+		}
+		vpBloomSet(c.field, name, ans)
+		return Field(name), ans
+	case 1:
+		if c.token == nil {
+			return Token(name), true
+		}
+		vpBloomSet(c.token, name, ans)
+		return Token(name), ans
+	}
+	if c.fieldToken == nil {
+		return FieldToken(name, "t"), true
+	}
+	vpBloomSet(c.fieldToken, makeFieldTokenKey(name, "t"), ans)
+	return FieldToken(name, "t"), ans
+}
+
+func vpAnyTree(c *vpLeafFilters, depth int) (BloomExpression, bool) {
+	if depth == 0 || nondetBool() {
+		return vpAnyLeaf(c)
+	}
+	n := 1 + nondetChoice(2)
+	isAnd := nondetBool()
+	var kids []BloomExpression
+	truth := isAnd
+	for i := 0; i < n; i++ {
+		k, t := vpAnyTree(c, depth-1)
+		kids = append(kids, k)
+		if isAnd {
+			truth = vpAnd(truth, t)
+		} else {
+			truth = vpOr(truth, t)
+		}
+	}
+	if isAnd {
+		return And(kids...), truth
+	}
+	return Or(kids...), truth
+}
+
+//vp:bounds bloom trees of depth <= 1 (thorough 2) with 1..2 children per inner node over Field / Token / Field:Token leaves; each of the three filters present or absent; every filter answer arbitrary
+//vp:maxpaths 600000
+func H_C24_a_block_is_kept_exactly_when_its_filters_admit_the_query() {
+	c := &vpLeafFilters{}
+	if nondetBool() {
+		c.field = vpNewBloom()
+	}
+	if nondetBool() {
+		c.token = vpNewBloom()
+	}
+	if nondetBool() {
+		c.fieldToken = vpNewBloom()
+	}
+	tree, truth := vpAnyTree(c, vpBound(1, 2))
+	q := &BloomQuery{Expression: &tree}
+	b := &BloomSearchEngine{logger: slog.New(slog.DiscardHandler)}
+	got := b.evaluateBloomFilters(c.field, c.token, c.fieldToken, q)
+	if truth {
+		vpAssert(got, "C01: the filters admit the query but the evaluator prunes the block")
+	} else {
+		vpAssert(!got, "C24: the block's filters rule the query out but the evaluator keeps the block (its row data will be read)")
+	}
+}
